@@ -121,6 +121,16 @@ def cases(tier, seed):
     n = 1500 if tier == 'quick' else 30000
     for i in range(n):
         yield {'k': 'store', 'i': i}
+    # the four extreme-code corners of operand pairs whose product / sum width sits right at the 53- and 64-bit thresholds
+    sums = (53, 54, 55, 62, 63, 64, 65, 66, 70, 100, 128)
+    for tot in sums:
+        splits = sorted(set([2, 3, tot // 3, tot // 2, tot - 3, tot - 2, 32, 33]))
+        for wx in splits:
+            wy = tot - wx
+            if 2 <= wx <= 70 and 2 <= wy <= 70:
+                for sx in (True, False):
+                    for sy in (True, False):
+                        yield {'k': 'corner', 'wx': wx, 'wy': wy, 'sx': sx, 'sy': sy}
 
 
 def _try(f):
@@ -133,8 +143,8 @@ def _try(f):
 def run_case(case, ctx):
     Fxp = ctx.mon.Fxp
     fm = ctx.mon.fxpmath
-    rng = ctx.rng_for(case['k'], case['i'])
-    i = case['i']
+    i = case.get('i', 0)
+    rng = ctx.rng_for(case['k'], i)
     if case['k'] == 'arith':
         cls = i % 4
         for _ in range(100):
@@ -180,6 +190,20 @@ def run_case(case, ctx):
         for f in (lambda: x + y, lambda: x - y, lambda: x * y, lambda: fm.add(x, y), lambda: fm.sub(y, x), lambda: fm.mul(x, y),
                   lambda: np.add(x, y), lambda: np.subtract(x, y), lambda: np.multiply(y, x)):
             _try(f)
+        return
+    if case['k'] == 'corner':
+        wx, wy, sx, sy = case['wx'], case['wy'], case['sx'], case['sy']
+        lox, hix = R.code_range(sx, wx)
+        loy, hiy = R.code_range(sy, wy)
+        for fx, fy in ((0, 0), (wx // 2, wy), (wx, 0)):
+            x = Fxp(np.array([[lox], [hix], [hix - 1 if hix > lox else hix]], dtype=object), sx, wx, fx, raw=True)
+            y = Fxp(np.array([[loy, hiy, loy + 1 if hiy > loy else loy]], dtype=object), sy, wy, fy, raw=True)
+            for f in (lambda: x * y, lambda: x + y, lambda: x - y, lambda: y - x, lambda: fm.mul(y, x)):
+                _try(f)
+            xs = Fxp(lox, sx, wx, fx, raw=True)
+            ys = Fxp(loy, sy, wy, fy, raw=True)
+            for f in (lambda: xs * ys, lambda: xs + ys, lambda: xs - ys, lambda: np.multiply(xs, ys)):
+                _try(f)
         return
     # storing Python integers of any size into short words
     w = rng.randint(1, 52)
